@@ -130,6 +130,10 @@ def _kind(body):
 
 
 class Layout(Obligation):
+    encoding_fragile = True          # AST extraction from ffi1001/ncf2ffi1001
+
+    def fallback_inputs(self):
+        return [{}, {'d': 1, 'a': 0}, {'d': 3, 'a': 2}, {'d': 12, 'a': 7}]
     mode = 'int'
     validate_paths = 4
     name = 'header-layout[d,a unbounded]'
@@ -322,6 +326,10 @@ def _sig_digits(fmt):
 
 
 class MissingCode(Obligation):
+    encoding_fragile = True          # AST extraction of the writer formats
+
+    def fallback_inputs(self):
+        return [{}, {'m': -9999}, {'m': -8888888}, {'m': 9999999}]
     mode = 'int'
     validate_paths = 3
     name = 'missing-code-formats'
